@@ -336,5 +336,18 @@ class Ctx:
         self.obligs.append(o)
         return o
 
+    def structure(self, name, ok, note=""):
+        """The SHAPE a contract expects of an internal interface or representation (arity of a returned tuple, a local a
+        fragment defines, an attribute of an internal object, the number of helper objects built, a source pattern).  Code of
+        another shape is not a violation of the property by itself - a consistent refactoring changes both sides of an
+        internal interface - so the task becomes UNDECIDED (the run-time layer, which only sees the public behaviour,
+        decides); only values inside the expected shape are obligations."""
+        if is_z3(ok):
+            c = as_const(ok)
+            ok = c if isinstance(c, bool) else self.entails(ok)
+        if not ok:
+            raise Unsupported(f"internal structure differs from what the contract expects: {name}{' - ' + note if note else ''}")
+        return self.oblige(name, True, "P", note)
+
     def note(self, *ev):
         self.events.append(ev)
